@@ -178,7 +178,7 @@ pub fn run(rep: &mut Report, tier: &str, seed: u64) {
         if rep.samples.len() < 3 {
             rep.sample(json!({"arms": actual, "subject": subject, "nested": nested}));
         }
-        let loaded = Loaded { program: Program { text: text.clone(), header: String::new(), stanzas: vec![text.clone()], globals: vec![], stanza_count: 1, has_fault: false, features: vec![] }, file };
+        let loaded = Loaded { program: Program { text: text.clone(), header: String::new(), stanzas: vec![text.clone()], globals: vec![], stanza_count: 1, has_fault: false, features: vec![], static_fault: None }, file };
         let mi = model_input(&loaded.file, &source.tree, &source.src, &info);
         runner.table = crate::oracle::OracleTable::new();
         runner.table.arm_sets = crate::astx::scan_arm_sets(&loaded.file);
